@@ -5350,7 +5350,11 @@ class LoopSum(Loop):
         return loop_sum(_takediag(self.func, axis1, axis2), self.index)
 
     def _take(self, index, axis):
-        return loop_sum(_take(self.func, index, axis), self.index)
+        # If `index` depends on `self.index`, e.g. because this take is part of
+        # the body of an enclosing loop over the same index, then we should not
+        # move it inside this loop (see `_multiply`).
+        if self.index not in index.arguments:
+            return loop_sum(_take(self.func, index, axis), self.index)
 
     def _unravel(self, axis, shape):
         return loop_sum(unravel(self.func, axis, shape), self.index)
